@@ -268,7 +268,7 @@ def parse_nat_list(s):
     if body in ("[]", "nil"):
         return []
     assert body.startswith("[") and body.endswith("]"), body
-    return [int(x) for x in body[1:-1].split(";") if x.strip()]
+    return [int(x.strip().split("%")[0]) for x in body[1:-1].split(";") if x.strip()]
 
 
 # --------------------------------------------------------------------------- evidence etc.
